@@ -114,12 +114,16 @@ def inproc(ctx):
             add({"shape": shape, "trig": {}}, fo, F.flatten(fo), "deep", tags=["depth=%d" % depth])
     fo = chain(9)
     add({"shape": "pg", "trig": {}, "max_stack": 8}, fo, F.flatten(fo), "deep", tags=["max_stack=8,depth=9"])
-    # 3. open calls at the end of the data (truncated history): correspondence only
+    # 3. open calls at the end of the data (truncated history): correspondence, and the append-only theorem:
+    #    the stream of the truncated run must be a list prefix of the stream of the complete run
+    prefix_pairs = []
     for _ in range(ctx.n(10, 100)):
         cfg, fo = gen_plain(ctx, rng)
         evs = F.flatten(fo)
-        evs = evs[:rng.randrange(1, len(evs))]
-        add(cfg, fo, evs, "open-tail", check=False)
+        cut = evs[:rng.randrange(1, len(evs))]
+        add(cfg, fo, cut, "open-tail", check=False)
+        add(cfg, fo, evs, "open-tail-full", check=False)
+        prefix_pairs.append((len(cases) - 2, len(cases) - 1))
     # 4. fast / single variants
     for variant in ("-fast", "-single", "-fast-single"):
         for _ in range(ctx.n(6, 60)):
@@ -154,6 +158,8 @@ def inproc(ctx):
         if c["check"] and c["kind"] == "random" and height(c["forest"]) <= (c["cfg"].get("max_stack") or 1024):
             # plain option sets are switch-free too: the weaker statement must hold as well
             checks.append((i, "ok_emb %s %s" % (F.coq_forest(c["forest"]), mcgen.coq_recs(c["res"]["recs"]))))
+    for (i1, i2) in prefix_pairs:
+        checks.append((i1, "prefix5 %s %s" % (mcgen.coq_recs(cases[i1]["res"]["recs"]), mcgen.coq_recs(cases[i2]["res"]["recs"]))))
     fast_idx = [i for i, c in enumerate(cases) if "fast" in c["variant"]]
     defs = "Definition cases : list case4 := [\n%s\n].\n" % ";\n".join(terms)
     defs += "Definition isfast : list bool := [%s].\n" % "; ".join(coq.coq_bool("fast" in c["variant"]) for c in cases)
